@@ -181,7 +181,11 @@ def gen_enum(seed, k):
             forms += ["0x%X" % d, "%d_%s" % (d, suffix) if False else "%d%s" % (d, suffix), "0b%s" % bin(d)[2:], "0o%o" % d]
             if d >= 1000:
                 forms.append("{:,}".format(d).replace(",", "_"))
-        if not int_repr and d < 0 and rng.random() < 0.3:
+        if not int_repr and d < 0 and rng.random() < 0.25:
+            # negation of something that is not a literal: refused, or exact
+            forms = [rng.choice(["-(%d)" % -d, "-NEG_%d" % -d, "-(%d + 0)" % -d])]
+            maybe_refused.append(True)
+        elif not int_repr and d < 0 and rng.random() < 0.3:
             # `!k` is a constant expression educe may refuse for an enum without a primitive representation (a
             # documented limit) — but if it accepts it, the value is -k-1
             forms = ["!%d" % (-d - 1)]
@@ -202,6 +206,8 @@ def render(e, strip=False):
     traits = {"Ord": ["Ord"], "Both": ["PartialOrd", "Ord"], "PartialOrd": ["PartialOrd"]}[e["mode"]]
     derives = ["PartialEq"] + (["Eq"] if e["mode"] != "PartialOrd" else []) + (["PartialOrd"] if e["mode"] == "Ord" else [])
     out = []
+    for m in sorted(set(re.findall(r"NEG_(\d+)", " ".join(x for x in (e.get("disc_txt") or []) if x)))):
+        out.append("pub const NEG_%s: isize = %s;\n" % (m, m))
     if not strip:
         out.append("#[derive(%s)]\n#[derive(::educe::Educe)]\n#[educe(%s)]\n" % (", ".join(derives), ", ".join(traits)))
     for r in e["reprs"]:
@@ -345,6 +351,33 @@ def programs(cases, nbins):
     return progs, base
 
 
+def tag_read_types(chk, cases):
+    """monitor on the expansion itself: where the generated code reads the tag out of memory (`.cast::<X>()`), X must be
+    exactly the declared primitive representation — on this 64-bit host `isize` read as `i64` behaves the same, on a
+    32-bit target it reads neighbouring bytes; an enum without a primitive representation must not be read at all"""
+    feed = [(cid, render(e).replace("::educe::Educe", "Educe").split("#[derive(Educe)]", 1)[-1].join(["#[derive(Educe)]", ""])
+             if False else render(e).replace("#[derive(::educe::Educe)]", "#[derive(Educe)]")) for cid, e, vals in cases]
+    # the in-process expansion takes one item: drop the helper constants and the std derive line
+    feed = [(cid, "\n".join(l for l in t.split("\n") if not l.startswith("pub const NEG_") and not (l.startswith("#[derive(") and "Educe" not in l)))
+            for cid, t in feed]
+    res = B.run_inproc(feed, items=False)
+    for cid, e, vals in cases:
+        r = res.get(cid)
+        if r is None or r.get("st") != "ok":
+            continue
+        casts = re.findall(r"cast\s*::\s*<\s*([A-Za-z0-9_]+)\s*>", r.get("out", ""))
+        chk.evaluations += 1
+        want = e.get("int_repr")
+        bad = [c for c in casts if c != want]
+        if bad:
+            chk.violation("tag-read-type|%s|%s" % (want, bad[0]),
+                          "the generated comparison reads the tag as `%s`, the enum's representation is %s\n%s"
+                          % (bad[0], ("`%s`" % want) if want else "not primitive (no memory read is allowed at all)", render(e)),
+                          {"case.rs": render(e), "expansion.txt": r.get("out", "")})
+        else:
+            chk.count("tag-read-type-ok" if casts else "no-tag-read")
+
+
 def judge_obs(chk, which, cases, obs, bad_base, dropped):
     for cid, e, vals in cases:
         if cid in bad_base:
@@ -429,6 +462,7 @@ def main(tier, seed, scale=1.0):
         log("C04: many generated enums are not valid Rust: %s" % list(bad_base)[:5])
     cases = [c for c in cases if c[0] not in bad_base]
     progs, _ = programs(cases, nb)
+    tag_read_types(chk, cases)
     for release in (False, True):
         which = "native-release" if release else "native-debug"
         dropped, warns, _ = H.compile_programs("c04", progs, release=release)
